@@ -76,13 +76,16 @@ def line_history_events(h):
     scan = LineScan(start=(float(st[0]), float(st[1])), end=(float(st[0] + L), float(st[1])), gpts=h[0]["gpts"], endpoint=h[0]["endpoint"])
     out = []
     for i, step in enumerate(h):
-        if step["a"] == "SetLength":
-            L = Fraction(*step["v"])
-            scan.end = (float(st[0] + L), float(st[1]))
-        elif step["a"] == "SetSampling":
-            scan.sampling = float(Fraction(*step["v"]))
-        elif step["a"] == "SetGpts":
-            scan.gpts = int(step["v"])
+        try:
+            if step["a"] == "SetLength":
+                L = Fraction(*step["v"])
+                scan.end = (float(st[0] + L), float(st[1]))
+            elif step["a"] == "SetSampling":
+                scan.sampling = float(Fraction(*step["v"]))
+            elif step["a"] == "SetGpts":
+                scan.gpts = int(step["v"])
+        except AttributeError:
+            return out          # the edit is not offered by this version of the API: the rest of the history is not applicable
         pos = scan.get_positions()
         md = scan.ensemble_axes_metadata
         ok = all(ex32(v) for v in pos.ravel()) and ex32(scan.sampling)
